@@ -153,6 +153,7 @@ package internal
 //@   requires typeChecked-predicate-has-function: len(call.Args) == 1
 //@   ghost cf compiledFunc
 //@   at call compileFunction 1 ghost cf = ret
+//@   ensures [C01,C11] predicate-function-is-a-new-object: implies(result != nil, result.Function != nil && result.Function != t.Function && forall(i, int, implies(0 <= i && i < len(f.Funcs), f.Funcs[i] != result.Function)))
 //@   ensures [C11,C02] predicate-keeps-the-compiled-functions-signature-and-inputs: implies(result != nil, result.Function != nil && result.Function.Predicate == result && result.Task == t && result.Inputs == cf.Inputs && result.Function.Dependencies == cf.Inputs && result.Function.Sig == cf.Sig && result.Function.WantCtx == cf.WantCtx && result.Function.Node == cf.Node && result.SentinelOutput != nil)
 //@   at call TypeOf 1 assume library-a-signature-is-its-own-underlying-type: implies(typeof(ret) == typeid("*go/types.Signature"), pure("invoke go/types.Type.Underlying", ret) == ret)
 
@@ -173,10 +174,15 @@ package internal
 //@   option props=[C13]
 //@   requires fn != nil
 
+//@ macro PREDFRESH = implies(t.Predicate != nil, t.Predicate.Function != nil && t.Predicate.Function != t.Function && forall(i, int, implies(0 <= i && i < len(flow.Funcs), flow.Funcs[i] != t.Predicate.Function)))
+
 //@ func (*compiler).interpretTaskOptions
 //@   option props=[C13]
 //@   requires $C && flow != nil && t != nil && t.Function != nil && t.Function.Sig != nil
+//@   requires no-predicate-yet: t.Predicate == nil
+//@   loop 1 invariant [C01,C11] predicate-function-is-a-new-object: $PREDFRESH
 //@   loop 2 invariant index-non-negative: 0 <= i
+//@   ensures [C01,C11] predicate-function-is-a-new-object: $PREDFRESH
 //@   at call compilePredicate 1 pre assume typeChecked-predicate-arity: len(arg3.Args) == 1
 //@   at call compileInstrument 1 pre assume typeChecked-instrument-arity: len(arg1.Args) == 1
 //@   at call compileInvoke 1 pre assume typeChecked-invoke-arity: len(arg2.Args) == 1
@@ -188,6 +194,7 @@ package internal
 //@   at call compileFunction 1 assume compiled-function-has-a-signature: implies(ret != nil, ret.Sig != nil)
 //@   ghost cf compiledFunc
 //@   at call compileFunction 1 ghost cf = ret
+//@   ensures [C01,C11] task-and-predicate-functions-are-new-distinct-objects: implies(result != nil, result.Function != nil && forall(i, int, implies(0 <= i && i < len(flow.Funcs), flow.Funcs[i] != result.Function)) && implies(result.Predicate != nil, result.Predicate.Function != nil && result.Predicate.Function != result.Function && forall(i, int, implies(0 <= i && i < len(flow.Funcs), flow.Funcs[i] != result.Predicate.Function))))
 //@   ensures [C02,C11] task-keeps-the-compiled-functions-signature-inputs-and-outputs: implies(result != nil, result.Inputs == cf.Inputs && result.Outputs == cf.Outputs && result.Function != nil && result.Function.Task == result && result.Function.Sig == cf.Sig && result.Function.WantCtx == cf.WantCtx && result.Function.HasError == cf.HasError && result.Function.Node == cf.Node)
 //@   ensures [C01,C02,C11] dependencies-are-the-inputs-then-the-predicates-sentinel: implies(result != nil, len(result.Function.Dependencies) == len(result.Inputs) + ite(result.Predicate != nil, 1, 0) && forall(k, int, implies(0 <= k && k < len(result.Inputs), result.Function.Dependencies[k] == result.Inputs[k])) && implies(result.Predicate != nil, dataof(result.Function.Dependencies[len(result.Inputs)]) == result.Predicate.SentinelOutput && typeof(result.Function.Dependencies[len(result.Inputs)]) == typeid("*go/types.Struct")))
 
@@ -310,6 +317,7 @@ package internal
 
 //@ macro FUNCSOK = forall(i, int, implies(0 <= i && i < len(flow.Funcs), flow.Funcs[i] != nil && flow.Funcs[i].Node != nil)) && forall(i, int, implies(0 <= i && i < len(flow.Inputs), flow.Inputs[i] != nil)) && forall(i, int, implies(0 <= i && i < len(flow.Outputs), flow.Outputs[i] != nil)) && forall(i, int, implies(0 <= i && i < len(flow.invokeTypes), flow.invokeTypes[i] != nil))
 
+//@ macro DISTINCT = forall(i, int, forall(i2, int, implies(0 <= i && i < len(flow.Funcs) && 0 <= i2 && i2 < len(flow.Funcs) && i != i2, flow.Funcs[i] != flow.Funcs[i2])))
 //@ macro PROVEMPTY = forall(t, int, tmapAt(flow.providers, t) == nil) && flow.providers != nil && flow.receivers != nil && flow.providers != flow.receivers
 //@ macro PROVOK = forall(t, int, implies(typeof(tmapAt(flow.providers, t)) == typeid("int"), 0 <= dataof(tmapAt(flow.providers, t)) && dataof(tmapAt(flow.providers, t)) < len(flow.Funcs))) && forall(t, int, tmapAt(flow.providers, t) == nil || typeof(tmapAt(flow.providers, t)) == typeid("int")) && flow.providers != nil && flow.receivers != nil && flow.providers != flow.receivers
 
@@ -325,9 +333,9 @@ package internal
 //@   requires $C && call != nil && file != nil
 //@   requires compiler-has-its-file-set: c.fset != nil
 //@   requires typeChecked-flow-has-a-context-argument: len(call.Args) >= 1
-//@   loop 1 invariant task-functions-non-nil: $FUNCSOK && !dup && $PROVEMPTY
-//@   loop 2 invariant [C14] duplicate-params-type-was-reported: !dup && $FUNCSOK && $PROVEMPTY
-//@   loop 3 invariant results-loop: $FUNCSOK && $PROVEMPTY
+//@   loop 1 invariant [C01,C11] functions-are-distinct-objects: $FUNCSOK && !dup && $PROVEMPTY && $DISTINCT
+//@   loop 2 invariant [C14] duplicate-params-type-was-reported: !dup && $FUNCSOK && $PROVEMPTY && $DISTINCT
+//@   loop 3 invariant results-loop: $FUNCSOK && $PROVEMPTY && $DISTINCT
 //@   at call At 1 ghost dup = typeof(ret) == typeid("*go.uber.org/cff/internal.input") && dataof(ret) != 0
 //@   at call errf 5 ghost dup = false
 //@   at call compileInstrument 1 pre assume typeChecked-instrument-arity: len(arg1.Args) == 1
@@ -337,7 +345,6 @@ package internal
 //@   loop 4 invariant [C01,C02,C11,C14] providers-map-holds-function-indices: $FUNCSOK && !dup && $PROVOK
 //@   loop 5 invariant receivers-loop: $FUNCSOK && !dup && $PROVOK
 //@   loop 6 invariant [C14] duplicate-provider-was-reported: !dup && $FUNCSOK && $PROVOK
-//@   at call scheduleFlowAndToposort 1 pre assume unproved-flow-functions-are-distinct-objects: forall(i, int, implies(0 <= i && i < len(flow.Funcs), forall(i2, int, implies(0 <= i2 && i2 < len(flow.Funcs) && i != i2, flow.Funcs[i] != flow.Funcs[i2]))))
 //@   at call Set 5 assert [C14] previous-provider-is-a-function-index: ret == nil || (typeof(ret) == typeid("int") && 0 <= dataof(ret) && dataof(ret) < len(flow.Funcs))
 //@   at call Set 5 ghost dup = ret != nil
 //@   at call errf 6 ghost dup = false
@@ -396,6 +403,28 @@ package internal
 // this includes the predicate's sentinel type, so a task depends on its
 // predicate, and a predicate on the providers of its own inputs.
 
+// toposort: every entry of the result is a node index, provided the graph's
+// Dependencies function returns node indices (rely; guaranteed for the flow
+// graph by scheduleFlowAndToposort$1/lists-only-provider-indices together with
+// the providers invariant). visit is a recursive closure: it calls itself
+// through the captured variable visit, under its own contract.
+//@ macro TOPOK = forall(j, int, implies(0 <= j && j < len(topo), 0 <= topo[j] && topo[j] < g.Count))
+
+//@ func toposort$1
+//@   option props=[C13]
+//@   option self-freevar=visit
+//@   requires node-index: 0 <= n && n < g.Count && visited != nil
+//@   requires entries-so-far-are-node-indices: $TOPOK
+//@   at call Dependencies 1 assume rely-graph-dependencies-are-node-indices: forall(j, int, implies(0 <= j && j < len(ret), 0 <= ret[j] && ret[j] < g.Count))
+//@   loop 1 invariant [C01,C13] entries-so-far-are-node-indices: $TOPOK
+//@   ensures [C01,C13] entries-are-node-indices: $TOPOK
+
+//@ func toposort
+//@   option props=[C13]
+//@   requires node-count-non-negative: g.Count >= 0
+//@   loop 1 invariant [C01,C13] entries-so-far-are-node-indices: 0 <= n && $TOPOK
+//@   ensures [C01,C13] result-holds-node-indices: forall(j, int, implies(0 <= j && j < len(result), 0 <= result[j] && result[j] < g.Count))
+
 //@ macro DEPK = f.Funcs[funcIdx].Dependencies[k]
 //@ macro HASPROV = typeof(tmapAt(f.providers, $DEPK)) == typeid("int")
 //@ macro PROV = dataof(tmapAt(f.providers, $DEPK))
@@ -428,7 +457,6 @@ package internal
 //@   loop 2 invariant [C01,C02,C11] providers-appended-so-far: 0 <= idx2 && idx2 <= len(deps2) && 0 <= idx && idx < len(f.Funcs) && fn == f.Funcs[idx] && forall(j, int, implies(0 <= j && j < idx2, 0 <= v[j] && v[j] < len(fn.DependsOn) && fn.DependsOn[v[j]] == f.Funcs[deps2[j]])) && forall(i, int, implies(0 <= i && i < idx, $SCHEDULED))
 //@   at call Dependencies 1 ghost deps2 = ret
 //@   at store DependsOn 1 ghost v[idx2] = len(target.DependsOn) - 1
-//@   at call toposort 1 assume unproved-toposort-returns-node-indices: forall(j, int, implies(0 <= j && j < len(ret), 0 <= ret[j] && ret[j] < len(f.Funcs)))
 //@   ensures [C01,C02,C11] every-function-depends-on-the-provider-of-each-of-its-dependencies: forall(i, int, implies(0 <= i && i < len(f.Funcs), forall(k, int, implies(0 <= k && k < len(f.Funcs[i].Dependencies) && $HASPROVI, exists(j, int, 0 <= j && j < len(f.Funcs[i].DependsOn) && f.Funcs[i].DependsOn[j] == f.Funcs[$PROVI])))))
 
 // ---------------------------------------------------------------------------
